@@ -360,10 +360,19 @@ def check_guard_order(ctx, F):
                     ret = ev[1].get("e")
             if order != ["read", "wide", "own"]:
                 bad = "order %s, expected [read _cancelled, injected guards, own guard]" % order
-            r = strip(ret or {})
-            okret = (r.get("k") == "bin" and r.get("op") == "||" and strip(r["lhs"]).get("n") == "cancelledBefore"
-                     and strip(r["rhs"]).get("k") == "un" and strip(r["rhs"]).get("op") == "!"
-                     and strip(strip(r["rhs"])["e"]).get("n") == "_cancelled")
+            # the returned value as a boolean function of (cancelledBefore, _cancelled now): cancelledBefore || !_cancelled, in any spelling
+            from .common import bexp, truth_table
+            try:
+                atoms, table = truth_table(bexp(F, ret or {}, {}))
+            except AnalysisBroken:
+                atoms, table = (), ()
+            before = [a for a in atoms if "cancelledBefore" in a]
+            now = [a for a in atoms if "_cancelled" in a and "cancelledBefore" not in a]
+            okret = len(atoms) == 2 and len(before) == 1 and len(now) == 1
+            if okret:
+                import itertools
+                want = tuple((dict(zip(atoms, v))[before[0]] or not dict(zip(atoms, v))[now[0]]) for v in itertools.product((False, True), repeat=2))
+                okret = want == table
             if not okret:
                 bad = bad or "return is not `cancelledBefore || !control._cancelled`"
         ctx.instance("C04.guard-order", site, {"function": site, "loc": F.floc(fid)})
